@@ -3,7 +3,10 @@
 // Injected into sigs.k8s.io/cli-utils/pkg/apply/taskrunner with `go build -overlay` (no file is added to /repo).
 package taskrunner
 
-import "sigs.k8s.io/cli-utils/pkg/object"
+import (
+	"sigs.k8s.io/cli-utils/pkg/apply/event"
+	"sigs.k8s.io/cli-utils/pkg/object"
+)
 
 // VerifSendTimeoutEvents runs what the deadline goroutine of WaitTask.Start runs when the timeout fires.
 func (w *WaitTask) VerifSendTimeoutEvents(tc *TaskContext) { w.sendTimeoutEvents(tc) }
@@ -13,4 +16,12 @@ func (w *WaitTask) VerifPending() object.ObjMetadataSet {
 	w.mu.RLock()
 	defer w.mu.RUnlock()
 	return append(object.ObjMetadataSet{}, w.pending...)
+}
+
+// VerifWithEventChannel returns a TaskContext that shares everything with tc (inventory manager, cache, task channel,
+// abandoned / invalid sets, graph) but sends its events to ch.
+func VerifWithEventChannel(tc *TaskContext, ch chan event.Event) *TaskContext {
+	c := *tc
+	c.eventChannel = ch
+	return &c
 }
